@@ -511,6 +511,16 @@ pub fn run_open_case(case: &OpenCase, obs: &mut Obs) -> CaseResult {
                     "{what}: refused with {:?}, but the receiving map emitted {ev:?} (key ids marked as seen: {accepted_ids:?}) - the unauthenticated packet changed the replay window / triggered a control packet",
                     got.as_ref().err()
                 );
+                // a bidirectional stream's opener schedules a key update of the receiving side when the peer has moved to the
+                // next key phase (`needs_update`, acted upon by stream::crypto::Crypto::open_with): only an authenticated packet may
+                if let Opener::Bidi(k) = &opener {
+                    ensure_that!(
+                        !k.application.opener.needs_update(),
+                        "open:forged-packet-effect:key-update-scheduled",
+                        "{what}: refused with {:?}, but the opener now asks for a key update (needs_update): an unauthenticated packet can rotate the receiver's stream keys",
+                        got.as_ref().err()
+                    );
+                }
                 if fresh {
                     forged_fresh.insert((e, kid));
                     obs.class("forged-names-fresh-key-id");
